@@ -69,6 +69,10 @@ func (mt *MemTopics) Subscribe(topic []byte, qos byte, sub interface{}) (byte, e
 		return message.QosFailure, fmt.Errorf("Topic filter cannot be empty")
 	}
 
+	if sysTopic(topic) {
+		return message.QosFailure, errSysTopic
+	}
+
 	mt.smu.Lock()
 	defer mt.smu.Unlock()
 
@@ -85,6 +89,10 @@ func (mt *MemTopics) Subscribe(topic []byte, qos byte, sub interface{}) (byte, e
 
 // Unsubscribe implements Provider.
 func (mt *MemTopics) Unsubscribe(topic []byte, sub interface{}) error {
+	if sysTopic(topic) {
+		return errSysTopic
+	}
+
 	mt.smu.Lock()
 	defer mt.smu.Unlock()
 
@@ -95,6 +103,10 @@ func (mt *MemTopics) Unsubscribe(topic []byte, sub interface{}) error {
 func (mt *MemTopics) Subscribers(topic []byte, qos byte, subs *[]interface{}, qoss *[]byte) error {
 	if !message.ValidQos(qos) {
 		return fmt.Errorf("Invalid QoS %d", qos)
+	}
+
+	if sysTopic(topic) {
+		return errSysTopic
 	}
 
 	mt.smu.RLock()
@@ -108,6 +120,10 @@ func (mt *MemTopics) Subscribers(topic []byte, qos byte, subs *[]interface{}, qo
 
 // Retain implements Provider.
 func (mt *MemTopics) Retain(msg *message.PublishMessage) error {
+	if sysTopic(msg.Topic()) {
+		return errSysTopic
+	}
+
 	mt.rmu.Lock()
 	defer mt.rmu.Unlock()
 
@@ -123,6 +139,10 @@ func (mt *MemTopics) Retain(msg *message.PublishMessage) error {
 
 // Retained implements Provider.
 func (mt *MemTopics) Retained(topic []byte, msgs *[]*message.PublishMessage) error {
+	if sysTopic(topic) {
+		return errSysTopic
+	}
+
 	mt.rmu.RLock()
 	defer mt.rmu.RUnlock()
 
@@ -457,6 +477,15 @@ const (
 	stateSYS             // System level topic ($)
 )
 
+var errSysTopic = fmt.Errorf("memtopics: Cannot publish or subscribe to $ topics")
+
+// sysTopic reports whether a topic name or filter starts with '$'. Only the
+// first character of the whole topic is special; in any other position '$' is
+// an ordinary character.
+func sysTopic(topic []byte) bool {
+	return len(topic) > 0 && topic[0] == '$'
+}
+
 // Returns topic level, remaining topic levels and any errors
 func nextTopicLevel(topic []byte) ([]byte, []byte, error) {
 	s := stateCHR
@@ -487,13 +516,6 @@ func nextTopicLevel(topic []byte) ([]byte, []byte, error) {
 			}
 
 			s = stateSWC
-
-		case '$':
-			if i == 0 {
-				return nil, nil, fmt.Errorf("memtopics/nextTopicLevel: Cannot publish to $ topics")
-			}
-
-			s = stateSYS
 
 		default:
 			if s == stateMWC || s == stateSWC {
